@@ -25,6 +25,14 @@ DATA, TIMEOUT, EOF, RESET, ERROR = "data", "timeout", "eof", "reset", "error"
 _real_timeout = _socket.timeout
 
 
+class SpinDetected(BaseException):
+    """>= SPIN_LIMIT consecutive transport reads that neither consumed a byte
+    nor let (virtual) time pass."""
+
+
+SPIN_LIMIT = 1000
+
+
 class Conn:
     """One TCP connection as seen from the client side."""
 
@@ -54,6 +62,8 @@ class Conn:
         self.max_recv_req = 0
         self.recv_calls = 0
         self.calls_after_close = []
+        self.idle_streak = 0
+        self.max_idle_streak = 0
 
     # ---- peer side API (called from scripts / timers) ----
     def deliver(self, data: bytes, cuts=None):
@@ -139,6 +149,13 @@ class SimSocket:
     def _sched(self):
         return _sched.current_sched()
 
+    def _idle(self, c):
+        c.idle_streak += 1
+        if c.idle_streak > c.max_idle_streak:
+            c.max_idle_streak = c.idle_streak
+        if c.idle_streak >= SPIN_LIMIT:
+            raise SpinDetected(f"{c.idle_streak} consecutive reads at end of stream")
+
     def attach(self, conn):
         self.conn = conn
         s = _sched.CURRENT
@@ -222,6 +239,7 @@ class SimSocket:
                 raise OSError(errno.EBADF, "Bad file descriptor")
         if c.client_shutdown and not c.rx:
             self._log("recv", bufsize, b"")
+            self._idle(c)
             return b""
         kind, payload = c.rx[0]
         if kind == DATA:
@@ -235,6 +253,7 @@ class SimSocket:
                 out = payload[:bufsize]
                 c.rx[0] = (DATA, payload[bufsize:])
             c.consumed += len(out)
+            c.idle_streak = 0
             self._log("recv", bufsize, out)
             return out
         if kind == TIMEOUT:
@@ -250,6 +269,7 @@ class SimSocket:
         if kind == EOF:
             # EOF is sticky
             self._log("recv", bufsize, b"")
+            self._idle(c)
             return b""
         if kind == RESET:
             self._log("recv", bufsize, "reset")
